@@ -205,7 +205,7 @@ theorem stepRaw_refs (s : SeqState) (op : Op) : KeepsRefs s (stepRaw s op) := by
     all_goals first
       | exact kr_fail _ _
       | exact kr_store _ (fun h => addChannel_refs_ok _ h)
-  | target qs n => exact kr_store _ (kr_targetCore _ _ _)
+  | target qs n => exact kr_store _ (kr_orRollback (kr_targetCore _ _ _))
   | add p n proto =>
     simp only [stepRaw]
     apply kr_store; apply kr_markNonEmpty
@@ -221,10 +221,11 @@ theorem stepRaw_refs (s : SeqState) (op : Op) : KeepsRefs s (stepRaw s op) := by
     apply kr_store; apply kr_markNonEmpty
     repeat' split
     all_goals first | exact kr_fail _ _ | exact kr_addCore _ _ _ _ _
-  | delay d n atRest => exact kr_store _ (kr_delayChecked _ _ _ _)
+  | delay d n atRest => exact kr_store _ (kr_orRollback (kr_delayChecked _ _ _ _))
   | align chs atRest =>
     simp only [stepRaw]
     apply kr_store
+    apply kr_orRollback
     repeat' split
     all_goals first | exact kr_fail _ _ | exact (fun h => h) | exact kr_alignLoop _ _ _
   | phaseShift phi qs b => exact kr_store _ (kr_phaseShift _ _ _ _)
@@ -233,7 +234,8 @@ theorem stepRaw_refs (s : SeqState) (op : Op) : KeepsRefs s (stepRaw s op) := by
     repeat' split
     all_goals first
       | exact kr_fail _ _
-      | (unfold enableEomCommit
+      | (apply kr_orRollback
+         unfold enableEomCommit
          apply kr_bind (kr_withChan _ _ _)
          intro s1
          apply kr_store
@@ -244,7 +246,8 @@ theorem stepRaw_refs (s : SeqState) (op : Op) : KeepsRefs s (stepRaw s op) := by
     repeat' split
     all_goals first
       | exact kr_fail _ _
-      | (unfold modifyEomCommit
+      | (apply kr_orRollback
+         unfold modifyEomCommit
          apply kr_bind (kr_withChan _ _ _)
          intro s1
          split
@@ -257,6 +260,7 @@ theorem stepRaw_refs (s : SeqState) (op : Op) : KeepsRefs s (stepRaw s op) := by
   | disableEom n corr =>
     simp only [stepRaw]
     apply kr_store
+    apply kr_orRollback
     repeat' split
     all_goals first
       | exact kr_fail _ _
